@@ -131,6 +131,68 @@ def guard_node(fn):
             "inner": [_param("current_index", SIZE_T), _param("length", SIZE_T), _param("backpointers_data", SIZE_T), nb]}
 
 
+# ------------------------------------------------------------------------------------------ comparison sites
+RELOPS = ("<", ">", "<=", ">=", "==", "!=")
+INT = {"qualType": "int"}
+
+
+def _is_pred_call(n):
+    if n.get("kind") != "CallExpr":
+        return False
+    c = n["inner"][0]
+    while c.get("kind") in PASS:
+        c = c["inner"][0]
+    return c.get("kind") == "MemberExpr" and c.get("name") == "pred"
+
+
+def pred_sites(fn, fname):
+    """every use of `queue->pred(x, y)` in the function, in source order: it must be one operand of a relational
+    operator, its arguments plain local variables.  Returns [(arg names, synthetic `_Bool site(int r)` node)] where the
+    call is replaced by the parameter r (the comparator's int result)."""
+    sites, loose = [], []
+
+    def strip(n):
+        while n.get("kind") in PASS:
+            n = n["inner"][0]
+        return n
+
+    def walk(n, parent_ok):
+        if _is_pred_call(n) and not parent_ok:
+            loose.append(n)
+        if n.get("kind") == "BinaryOperator" and n.get("opcode") in RELOPS:
+            ops = [strip(c) for c in n["inner"]]
+            idx = [i for i, o in enumerate(ops) if _is_pred_call(o)]
+            if len(idx) == 1:
+                call = ops[idx[0]]
+                names = []
+                for a in call["inner"][1:]:
+                    a = strip(a)
+                    if a.get("kind") != "DeclRefExpr" or a.get("referencedDecl", {}).get("kind") != "VarDecl":
+                        raise GenError(f"{fname}: comparator argument is not a local variable")
+                    names.append(a["referencedDecl"]["name"])
+                inner = list(n["inner"])
+                inner[idx[0]] = _ref("r", INT)
+                cmpn = dict(n); cmpn["inner"] = inner
+                body = {"kind": "CompoundStmt", "inner": [{"kind": "ReturnStmt", "inner": [cmpn]}]}
+                node = {"kind": "FunctionDecl", "name": "site", "type": {"qualType": "_Bool (int)"},
+                        "inner": [_param("r", INT), body]}
+                sites.append((names, node))
+                for i, c in enumerate(n["inner"]):
+                    if i != idx[0]:
+                        walk(c, False)
+                return
+        for c in n.get("inner", []) or []:
+            if isinstance(c, dict):
+                walk(c, False)
+    body = [c for c in fn["inner"] if c.get("kind") == "CompoundStmt"]
+    if len(body) != 1:
+        raise GenError(f"{fname} has no body")
+    walk(body[0], False)
+    if loose:
+        raise GenError(f"{fname}: the comparator's result is used other than as an operand of a relational operator")
+    return sites
+
+
 def _translate(node, lean_name, enums, want_params, want_ret):
     tr = cfun.FnTranslator(node, lean_name, lambda c: None, enums, fuel=4)
     text, info = tr.translate()
@@ -170,6 +232,20 @@ def generate(repo, cfg_inc):
                           [("current_index", (64, False)), ("length", (64, False)), ("backpointers_data", (64, False))], (32, True)))
     out.append(f"def AWS_ERROR_PRIORITY_QUEUE_BAD_NODE : Nat := {enums['AWS_ERROR_PRIORITY_QUEUE_BAD_NODE']}")
     out.append("")
+    # the comparison sites of the two sift loops: argument order and relational test
+    for fname, want in (("s_sift_down", 2), ("s_sift_up", 1)):
+        fnodes = cfun.dump_functions(f'#include "{pq}"\n', fname, inc)
+        if fname not in fnodes:
+            raise GenError(f"{fname} not found in priority_queue.c")
+        sites = pred_sites(fnodes[fname], fname)
+        if len(sites) != want:
+            raise GenError(f"{fname}: expected {want} comparator call(s), found {len(sites)}")
+        for k, (names, node) in enumerate(sites, 1):
+            base = f"{fname[2:]}_site{k}"
+            out.append(f"/-- comparison site {k} of `{fname}`: `queue->pred({', '.join(names)})` — the local variables passed, in order -/")
+            out.append(f"def {base}_args : List String := [" + ", ".join('"' + x + '"' for x in names) + "]")
+            out.append(f"/-- … and the test applied to the comparator's `int` result `r` (32-bit two's complement) -/")
+            out.append(_translate(node, f"{base}_test", {}, [("r", (32, True))], (1, False)))
     # scheduler comparator
     cn = cfun.dump_functions(f'#include "{ts}"\n', "s_compare_timestamps", inc)
     if "s_compare_timestamps" not in cn:
